@@ -94,6 +94,9 @@ class ColumnBackend(ArraySchemaBackend):
                     error_handler.collect_error(
                         validation_type(err.reason_code), err.reason_code, err
                     )
+                if return_check_obj:
+                    # keep the parsed data when errors are collected lazily
+                    return errs.data
             except SchemaError as err:
                 err.column_name = column_name
                 error_handler.collect_error(
@@ -127,7 +130,7 @@ class ColumnBackend(ArraySchemaBackend):
                         column_name,
                         return_check_obj=True,
                     )
-                    if schema.parsers:
+                    if schema.parsers and validated_column is not None:
                         check_obj[column_name] = validated_column
             else:
                 if getattr(schema, "drop_invalid_rows", False):
@@ -141,7 +144,7 @@ class ColumnBackend(ArraySchemaBackend):
                     column_name,
                     return_check_obj=True,
                 )
-                if schema.parsers:
+                if schema.parsers and validated_column is not None:
                     check_obj[column_name] = validated_column
 
         if lazy and error_handler.collected_errors:
